@@ -7,6 +7,6 @@ CONSTANTS
   NBug = "none"
   NVSpace = "d2"
   NCompoundV = "d1"
-  NKinds = {"isinstance", "issubclass", "typeis", "typeguard", "is", "eq", "in", "truthy", "len", "cmp", "c_isinstance", "c_isvalue", "match", "matchseq", "not", "and", "or", "deep"}
+  NKinds = {"isinstance", "issubclass", "typeis", "typeguard", "is", "eq", "in", "truthy", "len", "cmp", "lenr", "c_isinstance", "c_isvalue", "match", "matchseq", "not", "and", "or", "deep"}
 INVARIANT EmitDone
 CHECK_DEADLOCK FALSE
